@@ -49,8 +49,17 @@ typedef struct {
 static audio_t audio[MAXAUDIO];
 static int naudio;
 
-static decoder_t *d;
+static decoder_t *d; /* the current decoder (slot `cur') */
 static int execno;
+/* several decoder instances can be alive at once (use <k>); the per-utterance counters travel with them */
+#define NSLOT 4
+static struct slot_s {
+    decoder_t *d;
+    int scored[3], last_scored_frame[3], order_ok[3];
+    long fed_samples;
+    int ret_sum;
+} slots[NSLOT];
+static int cur;
 static int pass;          /* 1 = first-pass search, 2 = alignment pass */
 static int scored[3];     /* acmod_score calls per pass in this utterance */
 static int last_scored_frame[3];
@@ -816,6 +825,23 @@ main(int argc, char *argv[])
             emit_header(json);
             free(json);
             reset_utt_counters();
+        } else if (!strcmp(cmd, "use")) { /* use <k>: switch to decoder slot k */
+            if (sscanf(line, "%*s %ld", &a) != 1 || a < 0 || a >= NSLOT)
+                return 3;
+            slots[cur].d = d;
+            memcpy(slots[cur].scored, scored, sizeof(scored));
+            memcpy(slots[cur].last_scored_frame, last_scored_frame, sizeof(last_scored_frame));
+            memcpy(slots[cur].order_ok, order_ok, sizeof(order_ok));
+            slots[cur].fed_samples = fed_samples;
+            slots[cur].ret_sum = ret_sum;
+            cur = (int)a;
+            d = slots[cur].d;
+            memcpy(scored, slots[cur].scored, sizeof(scored));
+            memcpy(last_scored_frame, slots[cur].last_scored_frame, sizeof(last_scored_frame));
+            memcpy(order_ok, slots[cur].order_ok, sizeof(order_ok));
+            fed_samples = slots[cur].fed_samples;
+            ret_sum = slots[cur].ret_sum;
+            fprintf(vt_out, "{\"e\":\"Use\",\"inst\":%d,\"alive\":%s}\n", cur, d ? "true" : "false");
         } else if (!strcmp(cmd, "free")) {
             if (d)
                 decoder_free(d);
@@ -919,8 +945,10 @@ main(int argc, char *argv[])
         } else if (!strcmp(cmd, "start")) {
             int r;
             reset_utt_counters();
+            fprintf(vt_out, "{\"e\":\"Start\",\"inst\":%d,\"cmn\":", cur);
+            vt_str(vt_out, d ? decoder_get_cmn(d, 0) : "");
             r = decoder_start_utt(d);
-            fprintf(vt_out, "{\"e\":\"Start\",\"ret\":%d}\n", r);
+            fprintf(vt_out, ",\"ret\":%d}\n", r);
         } else if (!strcmp(cmd, "end")) {
             int before = scored[1];
             int r = decoder_end_utt(d);
@@ -984,14 +1012,16 @@ main(int argc, char *argv[])
         } else if (!strcmp(cmd, "mark")) { /* free-form marker copied to the trace */
             if (sscanf(line, "%*s %s", arg) != 1)
                 return 3;
-            fprintf(vt_out, "{\"e\":\"Mark\",\"v\":\"%s\"}\n", arg);
+            fprintf(vt_out, "{\"e\":\"Mark\",\"v\":\"%s\",\"batch\":%s}\n", arg, arg[0] == 'B' && arg[1] == ':' ? "true" : "false");
         } else {
             fprintf(stderr, "unknown command %s\n", cmd);
             return 3;
         }
     }
-    if (d)
-        decoder_free(d);
+    slots[cur].d = d;
+    for (cur = 0; cur < NSLOT; ++cur)
+        if (slots[cur].d)
+            decoder_free(slots[cur].d);
     free(senset);
     while (naudio > 0) {
         --naudio;
